@@ -127,14 +127,19 @@ def ghurye_olkin_unbiasedness_selftest(n=7, mu=0.3, sigma=1.4, y=1.1):
         if a <= 0 or w <= 0:
             return 0.0
         est = const * w ** (-0.5 * (n - d - 2)) * a ** (0.5 * (n - d - 3))
-        return est * stats.norm.pdf(mbar, mu, sigma / math.sqrt(n)) * stats.chi2.pdf(w / sigma ** 2, n - 1) / sigma ** 2
+        sm = sigma / math.sqrt(n)
+        npdf = math.exp(-0.5 * ((mbar - mu) / sm) ** 2) / (sm * math.sqrt(2.0 * math.pi))
+        k = n - 1
+        x = w / sigma ** 2
+        cpdf = math.exp((0.5 * k - 1.0) * math.log(x) - 0.5 * x - 0.5 * k * math.log(2.0) - float(gammaln(0.5 * k)))
+        return est * npdf * cpdf / sigma ** 2
 
     def lo(w):
         return y - math.sqrt(w * (1.0 - 1.0 / n))
 
     def hi(w):
         return y + math.sqrt(w * (1.0 - 1.0 / n))
-    val, _ = integrate.dblquad(f, 0.0, sigma ** 2 * 80.0, lo, hi, epsabs=1e-10, epsrel=1e-9)
+    val, _ = integrate.dblquad(f, 0.0, sigma ** 2 * 80.0, lo, hi, epsabs=1e-9, epsrel=1e-7)
     return val, float(stats.norm.pdf(y, mu, sigma))
 
 
